@@ -175,9 +175,26 @@ class ECommand(Command):
         context = self.step.workflow.context
         run["counts"][job.name] = run["counts"].get(job.name, 0) + 1
         fail = run["fail"]
-        if (fail and posixpath.dirname(job.name) == fail["step"] and get_job_tag(job.name) == fail["tag"]
-                and run["failed"] < fail["times"]):
+        fsteps = (fail.get("steps") or [fail["step"]]) if fail else []
+        if (fail and posixpath.dirname(job.name) in fsteps and get_job_tag(job.name) == fail["tag"]
+                and run["failed_by"].get(job.name, 0) < fail["times"]):
+            run["failed_by"][job.name] = run["failed_by"].get(job.name, 0) + 1
             run["failed"] += 1
+            if fail.get("barrier"):
+                # several jobs fail together: rendezvous, so that their recoveries are planned concurrently
+                ev = run.setdefault("barrier_ev", asyncio.Event())
+                run["arrived"] = run.get("arrived", 0) + 1
+                if run["arrived"] >= fail["barrier"]:
+                    ev.set()
+                try:
+                    await asyncio.wait_for(ev.wait(), timeout=60)
+                except asyncio.TimeoutError:
+                    pass
+            if fail["kind"] == "lose_job":
+                lost = [p for p in run["outputs"].get(fail["lose_job"], []) if os.path.exists(p)]
+                for p in lost:
+                    os.remove(p)
+                run["lost_paths"] = sorted(set(run.get("lost_paths", [])) | set(lost))
             if fail.get("wait_siblings"):
                 # fail only after every sibling job of the step ran once, so that what is re-executed later is
                 # not an effect of interleaving
@@ -224,6 +241,7 @@ class ECommand(Command):
         except Exception as err:  # noqa
             raise FailureHandlingException(err)
         run["done"][posixpath.dirname(job.name)] = run["done"].get(posixpath.dirname(job.name), 0) + 1
+        run["outputs"][job.name] = list(outs)
         return CommandOutput(value, Status.COMPLETED)
 
 
@@ -258,7 +276,7 @@ async def _dump(context, inputs):
             continue
         job = t.value.name if isinstance(t, JobToken) else None
         out.append({"id": r["id"], "port_id": r["port"], "pname": r["pname"], "tag": t.tag, "jobname": job,
-                    "avail": _fs_available(t),
+                    "avail": _fs_available(t), "missing": any(not os.path.exists(q) for q in _files_of(t)),
                     "recovering": bool(job is not None and await context.failure_manager.is_recovering(job)),
                     "deps": [p["dependee"] for p in prov if p["depender"] == r["id"]]})
     return out
@@ -342,7 +360,7 @@ async def run_scenario(sc: dict, base_dir: str) -> dict:
         "path": root})
     context._sfv_key = key if hasattr(context, "__dict__") else None
     fail = sc.get("fail")
-    RUNS[key] = {"counts": {}, "events": [], "fail": None, "failed": 0, "done": {}}
+    RUNS[key] = {"counts": {}, "events": [], "fail": None, "failed": 0, "done": {}, "failed_by": {}, "outputs": {}}
     try:
         dconf = DeploymentConfig(name=DEPLOYMENT, type="local", config={}, external=True, lazy=False, workdir=workdir)
         await context.deployment_manager.deploy(dconf)
@@ -360,10 +378,10 @@ async def run_scenario(sc: dict, base_dir: str) -> dict:
                 f.write(f"element {i}\n")
             files.append({"class": "File", "path": p})
         inj = b.injector("in", "/in")
-        inj.get_input_port("in").put(Token(files if sc["shape"] == "scatter" else files[0], recoverable=True))
+        inj.get_input_port("in").put(Token(files if sc["shape"] in ("scatter", "fork") else files[0], recoverable=True))
         inj.get_input_port("in").put(TerminationToken())
         names = {}
-        if sc["shape"] == "scatter":
+        if sc["shape"] in ("scatter", "fork"):
             a = b.pipeline("/a", {"in": inj.get_output_port("in")}, "out", "list")
             scat = wf.create_step(cls=ScatterStep, name="/b-scatter")
             scat.add_input_port("out", a.get_output_port("out"))
@@ -374,6 +392,8 @@ async def run_scenario(sc: dict, base_dir: str) -> dict:
             g.add_output_port("out", wf.create_port())
             c = b.pipeline("/c", g.get_output_ports(), "out", "list")
             last = c
+            if sc["shape"] == "fork":      # a second, parallel consumer of the gathered list
+                b.pipeline("/d", g.get_output_ports(), "out", "list")
         else:
             prev = inj.get_output_port("in")
             last = None
